@@ -21,7 +21,7 @@ pub fn run(a: &Args) -> Report {
         r.inconclusive(format!("refimpl self-test failed: {}", st.join("; ")));
         return r;
     }
-    let n = a.n(3000, 60000);
+    let n = a.n(12000, 60000);
     let seed = a.seed;
     let mut rep = parallel(n, a.threads, |i, rep| one_case(seed, i as u64, rep));
     // streams long enough to take every counter through its carries (VMess: the 16-bit chunk counter wraps to 0
